@@ -228,6 +228,7 @@ class Sim:
         self.runner = None
         self.sessions = {}
         self.workers_by_addr = {}
+        self.workers_by_host = {}
         self.monitors = []
         self.families = scenario.get("families", {})
         self.assigned = []      # (serial, uid, name, status) per simulated result
@@ -327,6 +328,7 @@ class Sim:
                 r["fetched_from"] = src
         self.log("door." + action, worker=wid, cls=test_class(name), label=short_class(name),
                  name_head=name.split(".vms.")[0],
+                 params_worker=self.workers_by_addr.get((str(params.get("nets_shell_host")), str(params.get("nets_shell_port")))),
                  reqs=reqs, answer=answer)
         if action == "check" and not answer:
             raise ShellCmdError("check", 1, "AssertionError")
@@ -465,6 +467,13 @@ async def fake_run_test_task(runner, node):
     if sim.serial - sim.serial_at_epoch > sim.exec_budget:
         raise ExecBudgetExceeded(f"more than {sim.exec_budget} executions in one job")
     objs = read_objects(params, permanent_vms(node))
+    # where the real runner would send the task: the container named by the parameters (lxc) or the
+    # worker's remote session (remote)
+    executed_on = wid
+    if params.get("nets_spawner") == "remote" and worker is not None:
+        executed_on = worker.get_session().wid
+    elif params.get("nets_spawner") == "lxc":
+        executed_on = sim.workers_by_host.get((params.get("nets_gateway", ""), params.get("nets_host", "")), wid)
 
     # availability of every required state, judged on the world as of this instant
     missing = []
@@ -484,7 +493,7 @@ async def fake_run_test_task(runner, node):
             for o in objs if o["set_state"] not in ROOTS]
     access = {k2: params[k2] for k2 in params if k2.startswith("nets_") or k2 == "nets"}
     ev = sim.log("start", worker=wid, cls=cls, label=label, name=name, uid=uid, serial=serial, k=k,
-                 needs=needs, sets=sets, access=access, type=params.get("type"),
+                 needs=needs, sets=sets, access=access, type=params.get("type"), executed_on=executed_on,
                  vms=params.get("vms", ""), max_tries=params.get("max_tries"),
                  max_concurrent_tries=params.get("max_concurrent_tries"),
                  pool_scope=params.get("pool_scope", ""), spawner=params.get("nets_spawner"),
@@ -671,6 +680,7 @@ def register_workers(sim, workers):
     for w in workers:
         addr = (str(w.params["nets_shell_host"]), str(w.params["nets_shell_port"]))
         sim.workers_by_addr[addr] = w.id
+    sim.workers_by_host = {(str(w.params.get("nets_gateway", "")), str(w.params.get("nets_host", ""))): w.id for w in workers}
 
 
 def _unrestricted(graph):
